@@ -29,6 +29,12 @@ claim("C15", "exploration", "All advertised names, every string of the RFC 6287 
 claim("C16", "exploration", "Every (issuer, account) pair over a 30-atom alphabet (spaces, %, /, ?, #, &, =, +, non-ASCII, percent-escape look-alikes; lengths 1..2) x rotating (secret, digits, hash, period) x both types through Generate*URL -> String -> url.Parse -> ParseOTPAuthURL, identity after documented defaulting; hand-written URLs with 26 number spellings for digits/period x 5 letter cases of the type must fail or return exactly the number.", TRUST + " net/url of the standard library.", EXH, "DESIGN.md §4 C16")
 claim("C17", "exploration", "Every helper on every text of its alphabet (all decimal strings <= 4 over {0-9,+,-,space,a}; all hex strings <= 3 over {0,9,a,F,g}; lengths x widths 0..40; all 3^5 valid/invalid/empty field combinations; every decimal question of 1..5 digits; patterned questions of 6..64 digits) against independent encoders; end to end through GenerateOCRA for every numeric registered suite and hand-built numeric suites, anchored by RFC 6287 App. C.", TRUST, EXH, "DESIGN.md §4 C17")
 
+INSTR = " The instrumented build is generated at check time from the current tree (statement points, sync->shim, comparison hooks) by /verif/harness/cmd/instr; the instrumenter and the runtime in /verif/rt are trusted."
+claim("C09", "model_checking", "Exhaustive non-interference exploration on the instrumented implementation: for every validation entry point (3 library validators, the wasm-tagged validator built natively, 3 REST validate handlers in-process, the 2 wasm binding validators executed natively over a fake syscall/js) x digits x hash x window size {0,1,2,10} x window position, the d wrong codes differing from that window code in exactly one position are submitted; all must be rejected with IDENTICAL traces of statement ids and comparison events (index of first mismatch for every early-exit ==, bytes/strings comparison; constant-time comparisons carry no leak value).", "Decides a leak MODEL (early-exit comparators leak the index of the first mismatch), not nanoseconds; switch-on-string and map lookups are not rewritten." + INSTR, "exhaustive trace-equivalence (non-interference) exploration of the instrumented implementation over all mismatch positions and window positions", "DESIGN.md §4 C09")
+claim("C10", "exploration", "For every exported operation (except the two documented Must* helpers) the product of per-parameter alphabets (all 256 values of both enums, 64-bit boundaries, empty/huge/invalid-UTF-8 strings, nil/empty/boundary/64 KiB byte fields, extreme instants, nil and hand-built URLs, the suite-configuration grid incl. undefined enum values) is executed on the instrumented library in 16 worker processes; oracle: no panic and return within 10^7 instrumented statements (deterministic hang detector).", TRUST + INSTR, "exhaustive enumeration of per-parameter alphabets on the instrumented implementation with a deterministic statement budget", "DESIGN.md §4 C10")
+claim("C11", "model_checking", "(1) Explicit-state search over operation histories on the instrumented library to a fixed point: state = digest of ALL package-level variables incl. the full capacity of pooled buffers, transition = one real call (20 operations incl. pool adversaries and GC), every result compared with the stateless reference and every earlier result re-checked. (2) Stateless exploration (choice-vector DFS) of all interleavings of 2-3 logical threads under a cooperative scheduler with scheduling points at every statement of package otp and every pool operation, preemption+deviation bounded (quick 2/1, thorough 3/2), Pool.Get answers explored per sync.Pool's contract; two 3-thread scenarios unbounded at pool-operation granularity. (3) auxiliary free-running -race monitor of the same calls.", "Sequentially consistent interleaving at statement granularity, <= 3 threads, bounded preemptions; sub-statement races left to the race monitor." + INSTR, "explicit-state history search to closure + preemption-bounded stateless schedule exploration (CHESS-style) of the real code under a cooperative scheduler", "DESIGN.md §4 C11")
+claim("C12", "model_checking", "Every operation taking slices, pointers or structs x slice shape {len==cap, spare capacity of canaries, sub-slice in the middle of a canary array} x every length class of each field x parameter variants (caller struct, the exported defaults passed themselves, nil), and every ordered pair of operations as a history; after every call all backing arrays (incl. spare capacity), deep copies of arguments, exported defaults, registry and lookup tables must be byte-identical and retained results must survive the caller scribbling its arguments.", TRUST + INSTR, "explicit enumeration of argument memory shapes and length-2 operation histories on the real code with a whole-state digest oracle", "DESIGN.md §4 C12")
+
 if __name__ == "__main__":
     checks = []
     for pid in ids:
